@@ -4,8 +4,8 @@
    Gf UtU i j = UtU[i][j], bf UtM j i = UtM[i][j], colf V j i = V[i][j] (column j as a function),
    l1of o / l2of o = sparsity / ridge coefficient (0 when None), qp_f / qp_grad (Base/RSum.v) the
    penalised objective  v'Gv/2 - b'v + l1 sum v + l2 sum v^2  and its gradient. *)
-From Coq Require Import List Arith Reals Lra.
-From TLV Require Import Base.Ops Base.RSum Model.Nnls Proofs.NnlsProofs.
+From Coq Require Import List Arith Reals Lra QArith Qabs.
+From TLV Require Import Base.Ops Base.Tensor Base.RSum Model.Nnls Proofs.NnlsProofs Proofs.NnlsProofsFista Proofs.NnlsProofsAset Proofs.NnlsProofsExamples.
 Import ListNotations.
 Open Scope R_scope.
 
@@ -118,3 +118,112 @@ Theorem C13_admm_none_normal_equations :
   wfm m r x' /\ forall c i, (c < m)%nat -> (i < r)%nat -> rsum r (fun k => mget Rops UtU k i * mget Rops x' c k) = mget Rops UtM c i.
 Proof. exact admm_none_normal_equations. Qed.
 Print Assumptions C13_admm_none_normal_equations.
+
+(* non-vacuity of the HALS fixed-point / optimality theorems: a 2 x 1 problem with one inactive and one active
+   constraint; its optimum (3/2, 0) satisfies every hypothesis above at once (plain and l1/ridge-penalised) *)
+Example C13_hals_hypotheses_satisfiable :
+  wfm 2 2 ex_UtU /\ wfm 2 1 ex_UtM /\ wfm 2 1 ex_V /\ h_nz ex_o = false /\ h_eps ex_o = 0 /\ 0 <= l2of ex_o /\
+  (forall i j, Gf ex_UtU i j = Gf ex_UtU j i) /\ (forall d, 0 <= quad 2 (Gf ex_UtU) d) /\
+  (forall k, (k < 2)%nat -> Gf ex_UtU k k <> 0 /\ 0 < Gf ex_UtU k k + 2 * l2of ex_o) /\
+  hals_pass Rops ex_UtM ex_UtU 1 ex_o ex_V = ex_V /\
+  hals_pass Rops ex_UtM ex_UtU 1 ex_o_pen ex_V_pen = ex_V_pen /\
+  fista_new Rops ex_UtM ex_UtU 1 true 0 0 (1 / 3) 0 ex_V = ex_V /\
+  mget Rops ex_V 0 0 = 3 / 2 /\ mget Rops ex_V 1 0 = 0.
+Proof. exact ex_all. Qed.
+
+(* ---------------------------------------------------------------------------------------------- *)
+(*  hals_nnls, cold start (V = None): clip(solve(UtU, UtM), 0) rescaled by sum(UtM*V)/sum(UtU*VV^T)  *)
+(* ---------------------------------------------------------------------------------------------- *)
+(* REFUTED: "the cold start returns a finite point".  On the positive definite problem UtU = [[2]],
+   UtM = [[-1]] (NNLS optimum 0) with the exact answer -1/2 of tl.solve the model returns the NaN outcome
+   for every budget and tolerance (known finding hals_cold_start_nan) *)
+Theorem C13_hals_cold_start_refuted :
+  exists (UtM UtU sol : list (list R)) (o : @hopts R),
+    wfm 1 1 UtU /\ wfm 1 1 UtM /\ 0 < mget Rops UtU 0 0 /\ solves 1 1 UtU UtM sol /\
+    forall iters tol, hals_nnls Rops UtM UtU 1 None sol iters tol o = Ok None.
+Proof. exact hals_cold_start_refuted. Qed.
+Print Assumptions C13_hals_cold_start_refuted.
+
+(* the whole failing class (full, universal): whenever the unconstrained solution has no positive entry *)
+Theorem C13_hals_cold_start_nan_class : forall (UtM UtU : list (list R)) (n : nat) (sol : list (list R)) (iters : nat) (tol : R) (o : @hopts R),
+  h_nz o = false -> Forall (Forall (fun x => x <= 0)) sol ->
+  hals_nnls Rops UtM UtU n None sol iters tol o = Ok None.
+Proof. exact hals_cold_start_nan. Qed.
+Print Assumptions C13_hals_cold_start_nan_class.
+
+(* PARTIAL (hypothesis: the scaling denominator is non-zero, i.e. hals_init is defined): the cold start is a
+   matrix of the right shape and the result is an iterate of the pass from it, so that the theorems (i)-(iv)
+   apply from there (any_start: the start may be infeasible when the scale is negative) *)
+Theorem C13_hals_cold_start_partial : forall (UtM UtU : list (list R)) (r n : nat) (sol V : list (list R)) (iters : nat) (tol : R) (o : @hopts R),
+  h_nz o = false -> wfm r n sol -> hals_init Rops UtM UtU n sol = Some V ->
+  wfm r n V /\ exists m, (m <= iters)%nat /\
+    hals_nnls Rops UtM UtU n None sol iters tol o = Ok (Some (iterl m (hals_pass Rops UtM UtU n o) V)).
+Proof. exact hals_cold_start_defined. Qed.
+Print Assumptions C13_hals_cold_start_partial.
+
+(* ---------------------------------------------------------------------------------------------- *)
+(*  fista (non_negative = True)                                                                    *)
+(* ---------------------------------------------------------------------------------------------- *)
+(* every returned point of a run with at least one iteration is >= epsilon *)
+Theorem C13_fista_iterates_ge_eps : forall (UtM UtU : list (list R)) (r n : nat) (sp rd lr tol eps : R),
+  wfm r r UtU -> wfm r n UtM ->
+  forall (x0 : list (list R)) (betas : list R) (i j : nat), wfm r n x0 -> betas <> [] -> (i < r)%nat -> (j < n)%nat ->
+  eps <= mget Rops (fista Rops UtM UtU n true sp rd lr tol eps x0 betas) i j.
+Proof. exact fista_ge_eps. Qed.
+Print Assumptions C13_fista_iterates_ge_eps.
+
+(* fixed point of the projected gradient step (any step lr > 0) => KKT at the bound epsilon, l1 and ridge inside g *)
+Theorem C13_fista_fixed_point_kkt : forall (UtM UtU : list (list R)) (r n : nat) (sp rd lr eps : R),
+  wfm r r UtU -> wfm r n UtM ->
+  forall V : list (list R), 0 < lr -> wfm r n V -> fista_new Rops UtM UtU n true sp rd lr eps V = V ->
+  forall i j, (i < r)%nat -> (j < n)%nat ->
+    let g := qp_grad r (Gf UtU) (bf UtM j) sp rd (colf V j) i in
+    eps <= mget Rops V i j /\ 0 <= g /\ (mget Rops V i j - eps) * g = 0.
+Proof. exact fista_fixed_point_kkt. Qed.
+Print Assumptions C13_fista_fixed_point_kkt.
+
+Theorem C13_fista_kkt_is_fixed_point : forall (UtM UtU : list (list R)) (r n : nat) (sp rd lr eps : R),
+  wfm r r UtU -> wfm r n UtM ->
+  forall V : list (list R), 0 < lr -> wfm r n V ->
+  (forall i j, (i < r)%nat -> (j < n)%nat ->
+    let g := qp_grad r (Gf UtU) (bf UtM j) sp rd (colf V j) i in
+    eps <= mget Rops V i j /\ 0 <= g /\ (mget Rops V i j - eps) * g = 0) ->
+  fista_new Rops UtM UtU n true sp rd lr eps V = V.
+Proof. exact fista_kkt_fixed_point. Qed.
+Print Assumptions C13_fista_kkt_is_fixed_point.
+
+(* such a point is stationary for the whole accelerated iteration (momentum, stopping rule, any budget) *)
+Theorem C13_fista_fixed_point_stationary : forall (UtM UtU : list (list R)) (r n : nat) (sp rd lr tol eps : R),
+  forall (V : list (list R)) (betas : list R), wfm r n V -> fista_new Rops UtM UtU n true sp rd lr eps V = V ->
+  forall first norm0, fista_loop Rops UtM UtU n true sp rd lr tol eps betas first norm0 V V = V.
+Proof. exact fista_stationary. Qed.
+Print Assumptions C13_fista_fixed_point_stationary.
+
+Theorem C13_fista_fixed_point_optimal : forall (UtM UtU : list (list R)) (r n : nat) (sp rd lr eps : R),
+  wfm r r UtU -> wfm r n UtM ->
+  forall V : list (list R), 0 < lr -> eps = 0 -> 0 <= rd -> wfm r n V ->
+  (forall i j, Gf UtU i j = Gf UtU j i) -> (forall d, 0 <= quad r (Gf UtU) d) ->
+  fista_new Rops UtM UtU n true sp rd lr eps V = V ->
+  forall j z, (j < n)%nat -> (forall i, (i < r)%nat -> 0 <= z i) ->
+    qp_f r (Gf UtU) (bf UtM j) sp rd (colf V j) <= qp_f r (Gf UtU) (bf UtM j) sp rd z.
+Proof. exact fista_fixed_point_optimal. Qed.
+Print Assumptions C13_fista_fixed_point_optimal.
+
+(* ---------------------------------------------------------------------------------------------- *)
+(*  active_set_nnls                                                                                *)
+(* ---------------------------------------------------------------------------------------------- *)
+(* REFUTED: "the returned point is KKT under rounding of the interpolation step".  The step x + alpha (s - x)
+   is modelled with a rounding function rnd; with |rnd x - x| <= 2^-60 (the blocking coordinate, exactly 0, is
+   left at 2^-60) the algorithm returns (0, 0) on UtU = [[1,-1],[-1,4]], Utm = (-6, 1), x0 = (3, 1), where
+   Utm - UtU x = (-6, 1) has a positive entry on the bound; with rnd = identity it returns the optimum
+   (0, 1/4).  The float64 implementation returns (0, 0) on this input (known finding active_set_step_rounding).
+   Executed at the rational instance of the model. *)
+Theorem C13_active_set_rounding_refuted :
+  exists (rnd : Q -> Q) (Utm : list Q) (UtU : list (list Q)) (x0 : list Q) (tol : Q),
+  (forall x, (Qabs (rnd x - x) <= 1 # 1152921504606846976)%Q) /\
+  active_set_nnls Qops (gauss_solve Qops) (fun x => x) Utm UtU tol (Some x0) 100 = Some [0; 1 # 4]%Q /\
+  active_set_nnls Qops (gauss_solve Qops) rnd Utm UtU tol (Some x0) 100 = Some [0; 0]%Q /\
+  gradient Qops Utm UtU [0; 0]%Q = [-6; 1]%Q /\
+  gradient Qops Utm UtU [0; 1 # 4]%Q = [-23 # 4; 0]%Q.
+Proof. exists rw_rnd, rw_Utm, rw_UtU, rw_x0, rw_tol. exact active_set_rounding_witness. Qed.
+Print Assumptions C13_active_set_rounding_refuted.
